@@ -17,7 +17,7 @@ COMMON_TRUSTED = [
     "channel table: ChannelSlots::{insert, insert_unused_channel_id, remove}; the write loop: Inner::write_to_stream; the "
     "frame buffer: Inner::read_from of src/frame_buffer.rs; the queue helpers of connection_state.rs: send, "
     "try_send_return, try_send_confirm, ConnectionState::client_exception; Consumer::cancel and its Drop; the option helpers "
-    "QueueDeclareOptions::into_declare, QueueDeleteOptions::into_delete, ExchangeDeclareOptions::into_declare; Connection::close_impl; Inner::{deregister, reregister}_nonzero_channels; amqp_url::{populate_host_and_port, decode}; RxTxHeartbeat::new, HeartbeatTimers::{start, fire_rx, fire_tx}); Inner::process_heartbeat_timers; Inner::handle_channel0_readable; the meaning given to the Rust subsets is stated in those files and trusted; "
+    "QueueDeclareOptions::into_declare, QueueDeleteOptions::into_delete, ExchangeDeclareOptions::into_declare; Connection::close_impl; Inner::{deregister, reregister}_nonzero_channels; amqp_url::{populate_host_and_port, decode}; RxTxHeartbeat::new, HeartbeatTimers::{start, fire_rx, fire_tx}); Inner::process_heartbeat_timers; Inner::{handle_channel0_readable, handle_channel_readable}; the meaning given to the Rust subsets is stated in those files and trusted; "
     "the translations are proved equal to the hand-written models (C15_source_is_model, C17_fire_source_is_model, "
     "C02_limit_source_is_model, C08_seal_source_is_model, C03_source_is_model, C16_process_source_is_model, C04_call_source_is_model, C02_send_content_source_is_model, C14_next_source_is_model / "
     "C14_drop_source_is_model / C14_process_source_is_model, C10_insert_some_source_is_model / C10_insert_none_source_is_model / "
@@ -762,7 +762,7 @@ _TRANSLATED = {
     "C02": "Channel0Handle::new and ChannelHandle::send_content (C02_limit_source_is_model, C02_send_content_source_is_model, C02_send_content_source_frames)",
     "C03": "the content collector (C03_source_is_model, C03_source_sequence)",
     "C04": "IoLoopHandle's call path and connection_state.rs's send (C04_call_source_is_model, C04_send_source_is_model)",
-    "C05": "IoLoopHandle's call path, client_exception, Connection::close_impl, Inner::process_heartbeat_timers and (relative to its externals) Inner::handle_channel0_readable (C05_call_source_is_model, C05_client_exception_source_is_model, C05_close_source_is_model, C05_pass_source_is_model, C05_ch0_drain_source_is_drain / C05_ch0_readable_source_is_model)",
+    "C05": "IoLoopHandle's call path, client_exception, Connection::close_impl, Inner::process_heartbeat_timers and (relative to its externals) Inner::handle_channel0_readable / handle_channel_readable (C05_call_source_is_model, C05_client_exception_source_is_model, C05_close_source_is_model, C05_pass_source_is_model, C05_ch0_drain_source_is_drain / C05_ch0_readable_source_is_model, C05_chan_drain_source_is_drain / C05_chan_readable_source_is_model)",
     "C06": "the frame buffer's Inner::read_from (C06_read_from_source_is_model)",
     "C08": "SealableOutputBuffer's seal rule and Inner::write_to_stream (C08_seal_source_is_model, C08_write_source_is_model, C08_write_source_conserves)",
     "C09": "IoLoopHandle's call path (C09_call_source_is_model)",
